@@ -1,6 +1,7 @@
 package checks
 
 import (
+	"bytes"
 	"crypto/sha256"
 	"encoding/hex"
 	"fmt"
@@ -63,6 +64,10 @@ type c11Target struct {
 	// domain for round trips, but read-only operations must still be
 	// read-only and encodings repeatable on such a packet
 	Mod int
+	// Frame != nil: the packet decoded from this valid frame (frames of the
+	// valid-frame language: property orders and forms the library's own
+	// encoder never emits)
+	Frame []byte
 }
 
 const c11Mods = 7
@@ -95,6 +100,9 @@ func c11Modify(q mq.Packet, m int) {
 }
 
 func (t c11Target) describe() string {
+	if t.Frame != nil {
+		return "packet decoded from the valid frame " + abbrevHex(t.Frame)
+	}
 	d := gen.Schemas[t.Type].Describe(t.Vec)
 	if t.Mod > 0 {
 		d += fmt.Sprintf(" with the will changed after SetWill (modification %d)", t.Mod)
@@ -254,10 +262,23 @@ func c11Apply(q mq.Packet, op string) {
 // c11ReadOnly runs one operation sequence on a fresh packet.
 func c11ReadOnly(t c11Target, seq []int) *core.Finding {
 	resetGlobals()
-	p := gen.Schemas[t.Type].Make(t.Vec)
-	q, err, res := buildGuarded(p)
-	if err != nil || res.Panic != "" {
-		return nil
+	var q mq.Packet
+	if t.Frame != nil {
+		r, rerr, res := readPacket(bytes.NewReader(t.Frame), stepBudget(len(t.Frame)))
+		if rerr != nil || r == nil || res.Panic != "" || res.Budget {
+			return nil
+		}
+		if _, isU := r.(*mq.Undefined); isU {
+			return nil
+		}
+		q = r
+	} else {
+		p := gen.Schemas[t.Type].Make(t.Vec)
+		b, err, res := buildGuarded(p)
+		if err != nil || res.Panic != "" {
+			return nil
+		}
+		q = b
 	}
 	c11Modify(q, t.Mod)
 	desc := t.describe()
@@ -456,6 +477,32 @@ func runC11(x *core.Ctx) {
 			return map[string]any{"type": s.Name, "packets": len(targets), "operation_sequences_each": len(seqs)}
 		})
 	}
+	// packets that came from the wire in a form the library's own encoder
+	// does not emit (every frame of the valid corpus): sequences of <= 2
+	// read-only operations
+	for _, v := range validCorpus() {
+		if !x.Mine() {
+			continue
+		}
+		if x.Expired() {
+			return
+		}
+		t := c11Target{Type: v.B[0] >> 4, Frame: v.B}
+		for _, sq := range seqs {
+			if len(sq) > 2 {
+				continue
+			}
+			x.Eval("readonly.decoded")
+			x.R.Transitions += int64(len(sq))
+			if f := c11ReadOnly(t, sq); f != nil {
+				sq := sq
+				x.Report(f, func() core.Case {
+					return core.Case{Harness: "c11.readonly", Choices: sq, Frame: hexOf(t.Frame), Params: map[string]any{"type": int(t.Type)}}
+				}, func() *core.Finding { return c11ReadOnly(t, sq) })
+			}
+		}
+		x.R.States++
+	}
 	// CONNECT packets whose will was changed after SetWill: read-only
 	// operations must be read-only there too
 	for _, t := range c11ModTargets() {
@@ -524,6 +571,9 @@ func replayC11(c core.Case) *core.Finding {
 		u, _ := c.Params["uniform"].(bool)
 		return c11OrderFinding(t, paramStr(c.Params, "op"), c.Choices, u)
 	case "c11.readonly":
+		if c.Frame != "" {
+			t.Frame = unhex(c.Frame)
+		}
 		return c11ReadOnly(t, c.Choices)
 	}
 	return nil
